@@ -489,7 +489,111 @@ def _local_mask_gate(m, fname, nid):
     return out
 
 
+# registration flags: (flag field, bit, sync-table side) - the bit mirrors "this PDO is registered in the SYNC table"
+REG_FLAGS = [(('CO_RPDO', 'Flag'), 0x02, 'CO_SYNC_FLG_RX', ['C13', 'C16']),
+             (('CO_TPDO', 'Flags'), 0x04, 'CO_SYNC_FLG_TX', ['C12', 'C16'])]
+
+
+def sync_registration(ctx):
+    """The S bit of a PDO's flag word is the only record of its registration in the SYNC table (COSyncAdd).
+    Every store that may clear it must be preceded, on every path, by COSyncRemove for that side or by a test /
+    store that shows the bit is already clear - otherwise the stale table entry keeps the PDO synchronous: SYNC
+    re-applies an old buffered RPDO frame / transmits a TPDO that is no longer synchronous.
+    Constructor-only functions (reachable only from CONodeInit) start from a fresh record and are exempt."""
+    m = ctx.m
+    from tables import api
+    roots = [f for f in m.funcs if (f in api.PUBLIC_API and f != 'CONodeInit')]
+    roots += [f for fs in m.slots.values() for f in fs if f in m.funcs]
+    roots += [f for f in m.cb_args.get(('COTmrCreate', 3), ()) if f in m.funcs]
+    live = m.reachable_funcs(roots)
+    nsites = 0
+    for (fld, bit, side, props) in REG_FLAGS:
+        sidev = m.enum(side) if side in m.enums else None
+        for fname in sorted(m.funcs):
+            fn = m.funcs[fname]
+            g = m.cfg(fname)
+            stores = [(nd, l, rhs, n) for nd in g.nodes if nd.x is not None for (l, rhs, n) in m.field_stores(nd.x, fld)]
+            if not stores:
+                continue
+
+            def clears(n):
+                if n.k == 'bin' and n.op == '|=':
+                    return False
+                c = const_eval(n.kids[1], m) if n.k == 'bin' else None
+                if n.k == 'bin' and n.op == '&=':
+                    return c is None or (c & bit) == 0
+                if n.k == 'bin' and n.op == '=':
+                    return c is None or (c & bit) == 0
+                return True
+
+            def sets(n):
+                c = const_eval(n.kids[1], m) if n.k == 'bin' else None
+                if n.k == 'bin' and n.op == '|=':
+                    return c is None or (c & bit) != 0
+                if n.k == 'bin' and n.op == '=':
+                    return c is None or (c & bit) != 0
+                return False
+
+            def tr(node, st):
+                if node.x is None:
+                    return st
+                for c in walk(node.x):
+                    if c.k == 'call':
+                        nm = callee_name(c)
+                        if nm == 'COSyncRemove' and (sidev is None or len(c.kids) < 4 or const_eval(c.kids[3], m) in (None, sidev)):
+                            st = True
+                        elif nm == 'COSyncAdd':
+                            st = False
+                for (l, rhs, n) in m.field_stores(node.x, fld):
+                    if n.k == 'bin' and n.op == '=' and const_eval(n.kids[1], m) is not None and (const_eval(n.kids[1], m) & bit) == 0:
+                        st = True
+                    elif sets(n):
+                        st = False
+                return st
+
+            def edge(node, lab, st):
+                if node.kind != 'br' or node.x is None:
+                    return st
+                x = strip(node.x)
+                # (F & S) != 0 / == 0 / plain (F & S)
+                e0, pol = x, True
+                if x.k == 'bin' and x.op in ('==', '!=') and const_eval(x.kids[1], m) == 0:
+                    e0, pol = strip(x.kids[0]), (x.op == '!=')
+                if e0.k == 'bin' and e0.op == '&':
+                    a, b = strip(e0.kids[0]), strip(e0.kids[1])
+                    for (p, q) in ((a, b), (b, a)):
+                        if p.k == 'mem' and p.field == fld and const_eval(q, m) is not None and (const_eval(q, m) & bit) != 0:
+                            bit_set_on = pol      # condition true <=> (some of the tested bits) set
+                            if lab != bit_set_on and const_eval(q, m) == bit:
+                                return True       # this edge: the bit is clear
+                return st
+            IN, OUT = flow.forward(g, False, tr, lambda a, b: a and b, edge=edge)
+            for (nd, l, rhs, n) in stores:
+                if not clears(n):
+                    continue
+                nsites += 1
+                site = '%s: %s' % (m.loc(fname, n), show(n))
+                if fname not in live:
+                    ctx.ob(props, 'RF2-sync-reg', fname, site, 'constructor only (fresh record)', nontrivial=False)
+                    continue
+                st = IN.get(nd.id)
+                if st is None:
+                    continue
+                # state just before this store inside the node: replay the node's earlier effects conservatively
+                if st:
+                    ctx.ob(props, 'RF2-sync-reg', fname, site, 'S bit known clear or COSyncRemove called on every path')
+                else:
+                    ctx.ob(props, 'RF2-sync-reg', fname, site, None)
+                    ctx.find(props, 'RF2-sync-reg', fname, 'flag-cleared-without-remove:%s.%s' % fld, m.loc(fname, n),
+                             '%s may clear the "registered in the SYNC table" bit of %s.%s although on some path neither '
+                             'COSyncRemove was called nor the bit is known to be clear: the PDO stays in the SYNC table after '
+                             'it stopped being synchronous (stale buffered frame applied / TPDO sent on SYNC)' % (show(n), fld[0], fld[1]))
+    ctx.inst('PDO.sync-reg.clearing-stores', nsites)
+    ctx.require_min(['C12', 'C13', 'C16'], 'RF2-sync-reg', nsites, 3, 'stores that may clear a SYNC registration bit')
+
+
 def run(ctx):
+    sync_registration(ctx)
     tpdo_tx_gates(ctx)
     sync_tables(ctx)
     sync_counting(ctx)
